@@ -5,6 +5,7 @@ import (
 	"fmt"
 	"os"
 	"runtime/debug"
+	"runtime/pprof"
 	"strconv"
 	"strings"
 	"testing"
@@ -45,6 +46,12 @@ func TestSim(t *testing.T) {
 		b, _ := json.Marshal(res)
 		fmt.Println("RESULT", string(b))
 		os.Stdout.Sync()
+		if p := os.Getenv("VERIF_MEMPROF"); p != "" {
+			if f, err := os.Create(p); err == nil {
+				pprof.Lookup("allocs").WriteTo(f, 0)
+				f.Close()
+			}
+		}
 		os.Exit(0)
 	})
 }
